@@ -369,12 +369,15 @@ func c11Scenario(id int, kind string, delay int64, param int, dir string) (c c11
 			}
 			if e1 == ErrTimeout || n1 == 0 {
 				// the byte comes a little later: take it
-				sst.SetReadDeadline(time.Now().Add(c11Bound))
+				dlAbs := time.Now().Add(c11Bound)
+				sst.SetReadDeadline(dlAbs)
 				if _, e := sst.Read(buf); e != nil {
-					// a stale tick may already strike here
-					if e == ErrTimeout {
+					// a stale tick may already strike here: ErrTimeout BEFORE this call's own absolute deadline
+					if e == ErrTimeout && time.Now().Before(dlAbs.Add(-5*time.Millisecond)) {
 						c.Class = 1
 						c.fail("deadline-race: a Read with a %v deadline returned ErrTimeout at once: stale timer tick left behind by the previous Read (Stop + drain in readMore is not exact)", c11Bound)
+					} else if e == ErrTimeout {
+						c.Skip = "inconclusive: the machine was too slow to deliver the byte within the draining read's deadline"
 					} else {
 						c.fail("deadline-race: draining read failed with class %d", c11Class(e))
 					}
@@ -383,15 +386,22 @@ func c11Scenario(id int, kind string, delay int64, param int, dir string) (c c11
 			}
 			// the next Read: far deadline, data after 3 ms
 			far := 2 * time.Second
-			sst.SetReadDeadline(time.Now().Add(far))
 			t1 := time.Now()
+			farAbs := t1.Add(far)
+			sst.SetReadDeadline(farAbs)
 			go func() {
 				time.Sleep(3 * time.Millisecond)
 				cst.Write(payload[:1])
 			}()
 			_, e2 := sst.Read(buf)
 			el := time.Since(t1)
-			if e2 == ErrTimeout && el < far-5*time.Millisecond {
+			if e2 == ErrTimeout && !time.Now().Before(farAbs.Add(-5*time.Millisecond)) {
+				// the read honoured its own deadline: the byte was late (loaded machine), nothing can be concluded
+				c.Skip = "inconclusive: the machine was too slow to deliver the byte before the second read's deadline"
+				sst.SetReadDeadline(time.Now().Add(c11Bound))
+				sst.Read(buf)
+				break
+			} else if e2 == ErrTimeout {
 				c.Class, c.CallUs, c.MinUs = 1, el.Microseconds(), far.Microseconds()
 				c.fail("deadline-race: a Read with a %v deadline returned ErrTimeout after %v: stale timer tick left behind by the previous Read (Stop + drain in readMore is not exact)", far, el)
 				// take the byte of this round
@@ -679,7 +689,7 @@ func c11FlushFull(id int, qcap int, withDeadlineMs int, dir string) (c c11Case) 
 			if ret.d < 60*time.Millisecond {
 				c.fail("flush: ErrQueueFull after only %v: fewer retries than the documented 10 x 10 ms", ret.d)
 			}
-			if ret.d > 100*time.Millisecond+2*time.Second {
+			if ret.d > 100*time.Millisecond+2*c11Bound {
 				c.fail("flush: took %v for 10 x 10 ms retries", ret.d)
 			}
 		}
@@ -963,7 +973,7 @@ func c11DispatcherAlive() bool {
 	select {
 	case <-ran:
 		return true
-	case <-time.After(c11Bound):
+	case <-time.After(2 * c11Bound):
 		return false
 	}
 }
@@ -1027,9 +1037,9 @@ func c11OnData(id int, kind string, deferred bool, end string, delay int64, dir 
 		syscall.Shutdown(client.connFd, syscall.SHUT_RDWR)
 	case "peer-close":
 		cst.Close()
-		waitFor = 1500 * time.Millisecond
+		waitFor = c11Bound
 	case "only":
-		waitFor = 1500 * time.Millisecond
+		waitFor = c11Bound
 	}
 	var ret *c11Ret
 	select {
@@ -1143,7 +1153,7 @@ func c11PeerGoneUnread(id int, waiter string, delay int64, dir string) (c c11Cas
 	case <-time.After(c11Bound):
 		c.fail("peer-gone-unread: the peer's end of the control connection was closed with our bytes unread, the session is still not shut down after %v", c11Bound)
 	}
-	ret := c11Await(ch, 1500*time.Millisecond)
+	ret := c11Await(ch, c11Bound)
 	if waiter == "read" {
 		c.record(ret, t, 2, 3)
 	} else {
@@ -1291,12 +1301,12 @@ func c11CloseVsCallbackStart(id int, delay int64, dir string) (c c11Case, wedged
 	}
 	t := time.Now()
 	_ = t0
-	closeRet := c11Await(closeCh, 1500*time.Millisecond)
+	closeRet := c11Await(closeCh, c11Bound)
 	var readRet *c11Ret
 	select {
 	case r := <-cb.returned:
 		readRet = &r
-	case <-time.After(1500 * time.Millisecond):
+	case <-time.After(c11Bound):
 	}
 	if closeRet == nil || readRet == nil {
 		c.Class = 8
@@ -1454,7 +1464,7 @@ func TestVerif_C11(t *testing.T) {
 		}
 	}
 	ods = append(ods, od{true, "only"}, od{true, "peer-close"})
-	for k := 0; k < 3; k++ {
+	for k := 0; k < 3 && os.Getenv("VERIF_C11_NOHOOK") != "1"; k++ {
 		d := delays[r.intn(len(delays))]
 		cc, wedged := c11CloseVsCallbackStart(id, d, dir)
 		emit(cc)
